@@ -758,6 +758,7 @@ func famHash(dir string, seed int64, tier string) {
 		}
 	}
 	apiTreeEditsStayPrivate(repT, "C12")
+	apiFillHashAfterEdit(repH)
 	apiFindRefs(repT)
 	apiFindRefs(repR)
 	{
